@@ -35,10 +35,28 @@ class VSegList(V):
 SeqT = z3.DeclareSort("SeqT")
 
 
+seq_len = z3.Function("seq_len", SeqT, E.I)
+
+
 @dataclass
 class VAbsSeq(V):
-    """an abstract sequence given by a term (the result of a recursive call seen through its contract)"""
+    """an abstract sequence given by a term (the result of a recursive call seen through its contract);
+    `elem(j)` (optional) gives the executor-level value of its j-th element, 0 <= j < seq_len(z)"""
     z: object
+    elem: object = None
+
+
+class SetObj(ListObj):
+    """a set as the log of its add / discard operations (entries: ('add', seg) / ('discard', seg))"""
+
+    def clone(self):
+        c = SetObj(self.items)
+        return c
+
+
+@dataclass
+class VSet(V):
+    addr: int
 
 
 class SegEntry:
@@ -46,6 +64,10 @@ class SegEntry:
 
     def __init__(self, seg):
         self.seg = seg
+
+
+list_len = z3.Function("list_len", E.Ref, E.I)
+list_elem = z3.Function("list_elem", E.Ref, E.I, E.Ref)
 
 
 def heap_free(v):
@@ -81,11 +103,43 @@ def b_int(eng, st, args, kw):
     raise Undecided("int() of unsupported value")
 
 
+def b_set(eng, st, args, kw):
+    if args:
+        raise Undecided("set(iterable)")
+    return [(st, VSet(st.alloc(SetObj([]))))]
+
+
 class SeqEngine(E.Engine):
     def __init__(self, *a, **kw):
         super().__init__(*a, **kw)
         E.BUILTINS["range"] = b_range
         E.BUILTINS["int"] = b_int
+        E.BUILTINS["set"] = b_set
+
+    def call_method(self, obj, name, args, kwargs, st):
+        o = self.unbox_known(obj, st)
+        if isinstance(o, VSet):
+            so = st.heap[o.addr]
+            if name in ("add", "discard", "remove"):
+                so.items.append((name, ("one", args[0])))
+                return [(st, VNone())]
+            raise Undecided(f"set.{name}")
+        return super().call_method(obj, name, args, kwargs, st)
+
+    def getattr(self, v, name, st):
+        if isinstance(v, (VSet, VSegList, VAbsSeq)):
+            return [(st, E.VBound(v, name))]
+        return super().getattr(v, name, st)
+
+    def ev_Set(self, e, st):
+        out = []
+        for s, vals in self.ev_seq(e.elts, st):
+            if isinstance(vals, VExc):
+                out.append((s, vals))
+                continue
+            a = s.alloc(SetObj([("add", ("one", v)) for v in vals]))
+            out.append((s, VSet(a)))
+        return out
         self.unroll_limit = 6
 
     # -- truthiness / len of sequences ----------------------------------------------------------------
@@ -143,6 +197,10 @@ class SeqEngine(E.Engine):
             return [("flat", it)]
         if isinstance(it, VSegList):
             return list(it.segs)
+        if isinstance(it, VRef) and self.valid_quick(st, self.lat.isinstance_z(it.z, ["list"])):
+            j = E.fresh("j", E.I)
+            st.assume(list_len(it.z) >= 0)
+            return [("range", z3.IntVal(0), list_len(it.z), j, VRef(list_elem(it.z, j)))]
         if isinstance(it, VRange):
             lo, hi = z3.simplify(it.lo), z3.simplify(it.hi)
             if z3.is_int_value(lo) and z3.is_int_value(hi) and hi.as_long() - lo.as_long() <= self.unroll_limit:
@@ -167,6 +225,9 @@ class SeqEngine(E.Engine):
                         else:
                             done.append((s2, sig, acc + prod))
                     continue
+                if seg[0] == "flat" and seg[1].elem is not None:
+                    j = E.fresh("j", E.I)
+                    seg = ("range", z3.IntVal(0), seq_len(seg[1].z), j, seg[1].elem(j))
                 if seg[0] in ("flat", "cond"):
                     raise Undecided(f"iteration over a {seg[0]} segment (elements of an abstract sequence) needs a contract")
                 _, lo, hi, i, item = seg
@@ -210,7 +271,10 @@ class SeqEngine(E.Engine):
                     extra = []
                     if grown is not None:
                         for x in grown[1]:
-                            extra.append(x.seg if isinstance(x, SegEntry) else ("one", x))
+                            if isinstance(s2.heap[grown[0]], SetObj):
+                                extra.append(("setop", x[0], x[1]))
+                            else:
+                                extra.append(x.seg if isinstance(x, SegEntry) else ("one", x))
                     cases.append((s2, list(prod) + extra, grown[0] if grown else None))
                 targets = {c[2] for c in cases if c[2] is not None}
                 if len(targets) > 1:
@@ -237,7 +301,10 @@ class SeqEngine(E.Engine):
                     post.assume(z3.Implies(guard, z3.Or(*[c for c, _ in conds])))
                 if target is not None:
                     lst = post.heap[target]
-                    lst.items = list(before[target][1]) + [SegEntry(x) for x in lifted]
+                    if isinstance(lst, SetObj):
+                        lst.items = list(before[target][1]) + [("loop", x) for x in lifted]
+                    else:
+                        lst.items = list(before[target][1]) + [SegEntry(x) for x in lifted]
                     nxt.append((post, acc))
                 else:
                     nxt.append((post, acc + lifted))
@@ -362,6 +429,13 @@ class SeqEngine(E.Engine):
 
     def binop(self, op, a, b, st):
         a2, b2 = self.unbox_known(a, st), self.unbox_known(b, st)
+        if isinstance(op, ast.Sub) and isinstance(a2, VSet) and isinstance(b2, VSet):
+            log = list(st.heap[a2.addr].items)
+            for kind, sg in st.heap[b2.addr].items:
+                if kind != "add":
+                    raise Undecided("set difference with a set built by removals")
+                log.append(("discard", sg))
+            return [(st, VSet(st.alloc(SetObj(log))))]
         if isinstance(op, ast.Add) and (isinstance(a2, VSegList) or isinstance(b2, VSegList)):
             sa, sb = self.segments_of(a2, st), self.segments_of(b2, st)
             if sa is None or sb is None:
@@ -382,6 +456,8 @@ def _seg_heap_free(sg):
         return all(_seg_heap_free(x) for x in body) if isinstance(body, list) else heap_free(body)
     if sg[0] == "cond":
         return all(_seg_heap_free(x) for _, seq in sg[1] for x in seq)
+    if sg[0] == "setop":
+        return _seg_heap_free(sg[2])
     return True
 
 
@@ -405,6 +481,11 @@ def segs_equal(eng, sa, sb, st, elem_eq):
             continue
         if x[0] != y[0]:
             return z3.BoolVal(False)
+        if x[0] == "setop":
+            if x[1] != y[1]:
+                return z3.BoolVal(False)
+            conj.append(segs_equal(eng, [x[2]], [y[2]], st, elem_eq))
+            continue
         if x[0] == "one":
             conj.append(elem_eq(x[1], y[1]))
         elif x[0] == "flat":
